@@ -17,7 +17,7 @@ def run(tier, seed, replay=None):
     exp = {}
     cases = [replay["case"]] if replay else \
         [rc.make_case(run.rng, tier, damage=True, max_damage=3)
-         for _ in range(90 if tier == "quick" else 900)]
+         for _ in range(200 if tier == "quick" else 1500)]
     for case in cases:
         if not case["damage"]:
             continue
